@@ -44,6 +44,7 @@ type c17Harness struct {
 	strConsts   []constant.Value
 	intConsts   []constant.Value
 	problems    map[string]bool
+	assigned    map[*types.Var]bool
 }
 
 type c17Derived struct {
@@ -100,6 +101,42 @@ func (h *c17Harness) concreteMethod(recv ast.Expr, fn *types.Func) *types.Func {
 		return m.Origin()
 	}
 	return fn
+}
+
+// rootAssigned: side roots that are assigned somewhere in the body (their current value is then not a pure read).
+func (h *c17Harness) rootAssigned() map[*types.Var]bool {
+	if h.assigned != nil {
+		return h.assigned
+	}
+	h.assigned = map[*types.Var]bool{}
+	ast.Inspect(h.fi.Decl.Body, func(n ast.Node) bool {
+		switch s := n.(type) {
+		case *ast.AssignStmt:
+			for _, l := range s.Lhs {
+				if v := core.VarOf(h.info, l); v != nil {
+					if _, ok := h.roots[v]; ok {
+						h.assigned[v] = true
+					}
+				}
+			}
+		case *ast.IncDecStmt:
+			if v := core.VarOf(h.info, s.X); v != nil {
+				if _, ok := h.roots[v]; ok {
+					h.assigned[v] = true
+				}
+			}
+		case *ast.UnaryExpr:
+			if s.Op == token.AND {
+				if v := core.VarOf(h.info, s.X); v != nil {
+					if _, ok := h.roots[v]; ok {
+						h.assigned[v] = true
+					}
+				}
+			}
+		}
+		return true
+	})
+	return h.assigned
 }
 
 func (h *c17Harness) isCommon(e ast.Expr) bool {
@@ -193,6 +230,23 @@ func (h *c17Harness) classify(e ast.Expr) (c17Read, bool) {
 				for _, a := range x.Args {
 					if tv := h.info.Types[a]; tv.Value != nil {
 						keys = append(keys, tv.Value.ExactString())
+						continue
+					}
+					// a scalar operand root that is never reassigned is a read of its side
+					if s, isRoot := h.roots[core.VarOf(h.info, a)]; isRoot && !h.rootAssigned()[core.VarOf(h.info, a)] {
+						if _, basic := h.info.TypeOf(a).Underlying().(*types.Basic); basic {
+							if side >= 0 && s != side {
+								okAll = false
+								break
+							}
+							side = s
+							keys = append(keys, ".")
+							continue
+						}
+					}
+					// operands built from the common parameters only: the same on both sides when spelled the same (part of the key)
+					if h.isCommon(a) {
+						keys = append(keys, "c:"+types.ExprString(a))
 						continue
 					}
 					rd, ok := h.classify(a)
